@@ -78,6 +78,9 @@ var c09Pipes = []string{"none", "delimiter+text", "length-field", "varint"}
 // streamAtHead reports whether the message reaches the head handler as an
 // io.WriterTo / io.Reader (several low-level writes) for this pipeline+carrier.
 func streamAtHead(pipe, carrier string) bool {
+	if i := strings.IndexByte(carrier, '+'); i > 0 {
+		carrier = carrier[:i] // mixed trial: the torn message is attributed below by its header
+	}
 	switch pipe {
 	case "none":
 		return carrier == "*bytes.Reader" || carrier == "*strings.Reader" || carrier == "io.Reader" || carrier == "io.MultiReader"
@@ -152,6 +155,14 @@ func runC09(c *core.Ctx) {
 		sizeClass := rng.Intn(3)
 		sizes := [][]int{{40, 64, 200, 700}, {1000, 1023, 1024, 1025, 1100}, {2047, 2048, 2049, 3000, 5000}}[sizeClass]
 		useCtx := rng.Intn(3) == 0
+		// mixed trials: even writers stream (several low-level writes per message), odd writers send single-write messages
+		carrier2 := carrier
+		if (idx/4)%3 == 2 && pipe == "none" {
+			carrier = []string{"io.Reader", "io.MultiReader", "*bytes.Reader"}[rng.Intn(3)]
+			carrier2 = []string{"[]byte", "[][]byte", "*bytes.Buffer"}[rng.Intn(3)]
+			sizeClass = 2
+			sizes = []int{2047, 2048, 2049, 3000, 5000}
+		}
 		procs := []int{2, 4, 8, 16}[rng.Intn(4)]
 		runtime.GOMAXPROCS(procs)
 
@@ -182,7 +193,19 @@ func runC09(c *core.Ctx) {
 					} else {
 						data = mon.Payload(w, seq, size)
 					}
-					msg := c09Msg(carrier, data)
+					car := carrier
+					if w%2 == 1 {
+						car = carrier2
+						if carrier2 != carrier {
+							data = data[:64] // short single-write messages slip between the chunks of a streamed one
+							if text {
+								data = []byte(armoured(w, seq, 64))
+							} else {
+								data = mon.Payload(w, seq, 64)
+							}
+						}
+					}
+					msg := c09Msg(car, data)
 					if useCtx {
 						cw.mu.Lock()
 						hc := cw.ctx
@@ -205,7 +228,7 @@ func runC09(c *core.Ctx) {
 		}
 		rig.Ex.WaitOutstanding(1, 10*time.Second)
 		ops, wire := rig.T.Snapshot()
-		c09Judge(c, id, pipe, carrier, mode, W, sizeClass, useCtx, ops, wire)
+		c09Judge(c, id, pipe, carrier+mixSuffix(carrier, carrier2), mode, W, sizeClass, useCtx, ops, wire)
 		rig.Dispose()
 	}
 	runtime.GOMAXPROCS(runtime.NumCPU())
@@ -392,6 +415,13 @@ func firstDiff(got, want []byte) int {
 		}
 	}
 	return n
+}
+
+func mixSuffix(a, b string) string {
+	if a == b {
+		return ""
+	}
+	return "+" + b
 }
 
 func trunc(b []byte, n int) []byte {
